@@ -307,3 +307,52 @@ def parse_leg(rep, srcdir, tier):
             if len(fails) >= 6:
                 break
     return fails
+
+
+# ------------------------------------------------------------------ Queues.tla
+def queues_leg(rep, srcdir, tier):
+    """Queues.tla: ring-buffer deque and binary-heap priority queue, transcription vs abstract meaning for every operation
+    sequence (TLC), every explored sequence replayed through the real macros / functions; returns [(why, stimulus)]."""
+    import re
+    out = vlib.subdir("harness")
+    text = open(os.path.join(srcdir, "process.c")).read()
+    m = re.search(r"#define parent\(i\).*?\ndown_heap\(.*?\n}\n", text, re.S)
+    if not m:
+        raise vlib.Infra("cannot find up_heap()/down_heap() in process.c")
+    with open(os.path.join(out, "heap_extract.h"), "w") as f:
+        f.write(m.group(0))
+    exe = vlib.build_harness("replay_queues", "replay_queues.c", srcdir, extra=["-I", out])
+    cfgs = [("deque", {1, 2, 3}, 6, {1, 2}), ("pqueue", {1, 3, 4}, 7, {1, 2, 3})]
+    if tier == "thorough":
+        cfgs = [("deque", {1, 2, 3, 4}, 6, {1, 2}), ("deque", {2}, 8, {1}), ("pqueue", {1, 2, 3, 5}, 7, {1, 2, 3}), ("pqueue", {6}, 9, {1, 2})]
+    fails = []
+    code = {"push": 1, "pop": 2, "shift": 3, "unshift": 4, "get": 5, "enqueue": 1, "dequeue": 2, "peek": 3}
+    for kind, caps, maxops, vals in cfgs:
+        behs, r = gen("Queues", dict(Kind=kind, Caps=caps, MaxOps=maxops, Vals=vals), ["Represents", "ReturnsRight", "Export"], "queues_%s%d" % (kind, maxops),
+                      timeout=1800, workers=8)
+        if behs is None:
+            raise vlib.Infra("Queues.tla (%s): the transcription does not represent its abstract meaning:\n%s" % (kind, r.text[-1500:]))
+        rep.add("states", r.distinct)
+        rep.add("transitions", r.generated)
+        lines = ["%s %d %d %s" % ("D" if kind == "deque" else "P", b["cap"], len(b["ops"]), " ".join("%d %d" % (code[o["op"]], o["arg"]) for o in b["ops"]))
+                 for b in behs]
+        p = subprocess.run([exe], input="\n".join(lines) + "\n", capture_output=True, text=True, timeout=900)
+        res = [l.split()[2:] for l in p.stdout.splitlines() if l.startswith("R ")]
+        if p.returncode != 0 or len(res) != len(behs):
+            if p.returncode < 0 and len(res) < len(behs):
+                b = behs[len(res)]
+                return [("%s operations crash (signal %d): capacity %d, %s" % (kind, -p.returncode, b["cap"], [(o["op"], o["arg"]) for o in b["ops"]]),
+                         dict(kind=kind, cap=b["cap"], ops=b["ops"]))]
+            raise vlib.Infra("replay_queues failed: rc=%s %s" % (p.returncode, p.stderr[-300:]))
+        rep.add("queue_sequences_replayed", len(behs))
+        rep.add("traces_validated_against_impl", len(behs))
+        for b, got in zip(behs, res):
+            want = [str(o["ret"]) for o in b["ops"]]
+            if got != want:
+                k = next(i for i in range(len(want)) if i >= len(got) or got[i] != want[i])
+                fails.append(("%s of capacity %d: operation %d (%s) returned %s, Queues.tla says %s after %s" %
+                              (kind, b["cap"], k + 1, b["ops"][k]["op"], got[k] if k < len(got) else "?", want[k], [(o["op"], o["arg"]) for o in b["ops"][:k]]),
+                              dict(kind=kind, cap=b["cap"], ops=b["ops"], got=got)))
+                if len(fails) >= 4:
+                    return fails
+    return fails
